@@ -1,6 +1,8 @@
 // C15 (b): inverse_in / inverse_as value sweeps.  Oracle: trunc(K / x) in 128-bit integers (K from the
 // Python model, never from Au); for floating reps K / x in long double.
 #pragma once
+#include <csignal>
+#include <cstdlib>
 #include "c15_common.hh"
 
 namespace c15 {
@@ -10,6 +12,18 @@ struct InvStats {
     bool type_ok = true;
     int shown = 0;
 };
+
+// A trap inside the library (e.g. SIGFPE from a division by a wrongly truncated operand) on an input the statement
+// covers is a violation of that input, not a harness failure: report it as a V line and stop this binary.
+static volatile int c15_cur_inst = -1;
+static volatile double c15_cur_x = 0;
+extern "C" inline void c15_trap(int sig) {
+    std::fflush(stdout);
+    std::printf("V {\"inst\":%d,\"kind\":\"trap-signal-%d\",\"x\":\"%.17g\",\"got\":\"trap\",\"exp\":\"a value\"}\n",
+                (int)c15_cur_inst, sig, (double)c15_cur_x);
+    std::fflush(stdout);
+    std::_Exit(86);
+}
 
 inline void inv_v(InvStats &st, int id, const char *kind, const std::string &x, const std::string &got,
                   const std::string &exp) {
@@ -85,12 +99,15 @@ template <typename I>
 void run_inv_int(int id, long long only_x) {
     typedef typename I::R R;
     InvStats st;
+    std::signal(SIGFPE, c15_trap);
+    c15_cur_inst = id;
     const i128 K = (i128)I::K;
     const long long rmax = (long long)(std::numeric_limits<R>::max() < 65536 ? std::numeric_limits<R>::max() : 65536);
     const long long rmin = std::is_signed<R>::value ? -rmax : 1;
     for (long long x = rmin; x <= rmax; ++x) {
         if (x == 0) continue;                         // K / 0: no value is promised, never executed
         if (only_x && x != only_x) continue;
+        c15_cur_x = (double)x;
         const auto q = au::make_quantity<typename I::Src>(static_cast<R>(x));
         const i128 exp = K / x;                       // C++ integer division truncates toward zero
         (exp == 0 ? st.zero_results : st.nonzero_results)++;
@@ -104,6 +121,33 @@ void run_inv_int(int id, long long only_x) {
         ImplicitForms<I, I::IMPLICIT>::value(st, id, q, exp, x);
     }
     if (!only_x || only_x <= 1000) ImplicitForms<I, I::IMPLICIT>::roundtrip(st, id);
+    if (!only_x) {
+        // explicit-rep form with a SOURCE rep different from the target rep R: the statement's trunc(K/x) must be
+        // formed from the actual x (the library divides in the common type of the two reps, then casts)
+        const long long xs[] = {3LL, 65636LL, 1000003LL, 2147483653LL, 4294967311LL, 1000000000007LL, (long long)(K / 3 + 1),
+                                -65636LL, -4294967311LL};
+        for (long long x64 : xs) {
+            if (x64 == 0 || (x64 < 0 && !std::is_signed<R>::value)) continue;
+            c15_cur_x = (double)x64;
+            const auto q = au::make_quantity<typename I::Src>(x64);
+            const i128 exp = K / x64;
+            const R a = au::inverse_in<R>(typename I::Tgt{}, q);
+            st.evals += 1;
+            if ((i128)a != exp) inv_v(st, id, "inverse_in<R>(int64_t source)", std::to_string(x64), num_str(a), i128_str(exp));
+        }
+        if (K <= ((i128)1 << 53)) {
+            for (int x = 1; x <= 2000; ++x) {
+                const double xd = x + 0.5;
+                c15_cur_x = xd;
+                const auto q = au::make_quantity<typename I::Src>(xd);
+                const ld exact = (ld)K / (ld)xd;
+                const R a = au::inverse_in<R>(typename I::Tgt{}, q);
+                st.evals += 1;
+                if (!(std::fabs((ld)a - exact) <= 1 + 1e-12L * std::fabs(exact)))
+                    inv_v(st, id, "inverse_in<R>(double source)", std::to_string(xd), num_str(a), num_fp(exact));
+            }
+        }
+    }
     inv_summary(st, id);
 }
 
